@@ -4,7 +4,7 @@
 # then runs the given checks against it (REPO_ROOT) and reports which ones flag it.
 set -u
 D="$1"; shift
-WT=/tmp/mutrun
+WT=${MUTWT:-/tmp/mutrun}
 if [ ! -d $WT ]; then git -C /repo worktree add -q $WT HEAD; fi
 cd $WT && git checkout -q -- . && git clean -fdq -e target && git checkout -q --detach "$(git -C /repo rev-parse HEAD)"
 export CARGO_TARGET_DIR=$WT/target CARGO_NET_OFFLINE=true
@@ -18,7 +18,7 @@ DEMODIR=""
 run_demo() {
   if [ -n "$DEMO" ]; then
     cp "$DEMO" $WT/strum_tests/tests/demo_test.rs
-    (cd $WT && timeout 900 cargo test --offline -p strum_tests $FEAT --test demo_test >/tmp/mutrun.demo.log 2>&1); r=$?
+    (cd $WT && timeout 900 cargo test --offline -p strum_tests $FEAT --test demo_test >$WT.demo.log 2>&1); r=$?
     rm -f $WT/strum_tests/tests/demo_test.rs
     return $r
   fi
@@ -27,10 +27,10 @@ run_demo() {
     sed -i -E "s#/tmp/mut/C[0-9]+/#$WT/#g" $WT/demo_x/Cargo.toml
     cp /repo/Cargo.lock $WT/demo_x/Cargo.lock 2>/dev/null
     if [ -f $WT/demo_x/run.sh ]; then
-      (cd $WT/demo_x && sed -i -E "s#/tmp/mut/C[0-9]+/#$WT/#g" run.sh && CARGO_TARGET_DIR=$WT/target/demo_x timeout 900 sh run.sh >/tmp/mutrun.demo.log 2>&1); r=$?
-      tail -2 /tmp/mutrun.demo.log
+      (cd $WT/demo_x && sed -i -E "s#/tmp/mut/C[0-9]+/#$WT/#g" run.sh && CARGO_TARGET_DIR=$WT/target/demo_x timeout 900 sh run.sh >$WT.demo.log 2>&1); r=$?
+      tail -2 $WT.demo.log
     else
-      (cd $WT/demo_x && CARGO_TARGET_DIR=$WT/target/demo_x timeout 900 cargo build --offline >/tmp/mutrun.demo.log 2>&1); r=$?
+      (cd $WT/demo_x && CARGO_TARGET_DIR=$WT/target/demo_x timeout 900 cargo build --offline >$WT.demo.log 2>&1); r=$?
     fi
     rm -rf $WT/demo_x
     return $r
@@ -38,7 +38,7 @@ run_demo() {
   return 99
 }
 if [ -z "${FAST:-}" ]; then echo "== clean tree: demo"; run_demo; echo "demo exit (clean) = $?"; fi
-if ! git -C $WT apply --check "$D/patch.diff" 2>/tmp/mutrun.apply.err; then echo "PATCH DOES NOT APPLY: $(cat /tmp/mutrun.apply.err | head -3)"; exit 3; fi
+if ! git -C $WT apply --check "$D/patch.diff" 2>$WT.apply.err; then echo "PATCH DOES NOT APPLY: $(cat $WT.apply.err | head -3)"; exit 3; fi
 git -C $WT apply "$D/patch.diff"
 if [ -z "${FAST:-}" ]; then
 echo "== mutated tree: existing tests"
